@@ -41,7 +41,7 @@ CLAUSES = ["TypeOK", "AttachOnce", "AttachFirst", "DetachOnce", "DetachOnlyAttac
 # instance = (tag, N, driver steps, Ops, Pers, MsgMenu, ExtMenu, ArmMenu, Dests, FacModes)
 QUICK = [("core3", 2, 3, "core", "all", "small", "core", "core2", '{"up"}', '{"ok"}'),
          ("msg4", 3, 4, "msg", "plain", "core", "none", "none", '{"up"}', '{"ok"}'),
-         ("arm4", 2, 4, "core", "att", "small", "small", "core2", '{"up"}', '{"ok"}'),
+         ("arm4", 2, 4, "core", "att", "small", "none", "core2", '{"up"}', '{"ok"}'),
          ("conn4", 2, 4, "conn", "plain", "none", "conn", "conn2", '{"up", "down"}', '{"ok"}'),
          ("conn5", 2, 5, "connx", "plain", "none", "none", "none", '{"up", "down"}', '{"ok"}'),
          ("fac5", 2, 5, "fac", "plain", "small", "none", "none", '{"up"}', '{"ok", "null", "bad"}')]
